@@ -66,10 +66,15 @@ func (mbp *multipartBodyProcessor) ProcessRequest(reader io.Reader, v plugintype
 					v.MultipartStrictError().(*collections.Single).Set("1")
 					return err
 				}
-				defer temp.Close()
 				sz, err := io.Copy(temp, p)
+				if cerr := temp.Close(); cerr != nil && (err == nil || errors.Is(err, io.ErrUnexpectedEOF)) {
+					// a failed close means the upload may not have reached the disk
+					err = cerr
+				}
 				if err != nil {
 					if !errors.Is(err, io.ErrUnexpectedEOF) {
+						// the file is not listed in FILES_TMPNAMES yet, so nobody else would remove it
+						_ = os.Remove(temp.Name())
 						v.MultipartStrictError().(*collections.Single).Set("1")
 						return err
 					}
